@@ -91,6 +91,17 @@ CodePrinter::print_binary_reduction_impl(vec_basic::const_iterator begin,
     return s.str();
 }
 
+PrecedenceEnum CodePrinter::get_precedence(const RCP<const Basic> &x)
+{
+    // RewriteTrigVisitor prints the reciprocal functions as the quotient
+    // 1/f(arg), which is not an atom
+    if (is_a<Cot>(*x) or is_a<Csc>(*x) or is_a<Sec>(*x) or is_a<Coth>(*x)
+        or is_a<Csch>(*x) or is_a<Sech>(*x)) {
+        return PrecedenceEnum::Add;
+    }
+    return StrPrinter::get_precedence(x);
+}
+
 void CodePrinter::bvisit(const Basic &x)
 {
     throw SymEngineException("Not supported");
